@@ -327,6 +327,9 @@ def run(chk, replay=None):
             else:
                 # quick: one three-channel observation of the non-relativistic K-matrix (the top of the quantified range; 20-30 s)
                 ojobs.append(("NRK", 3, 1, 0, 1, "none", chk.seed * 7919 + 999))
+                # ... and one of the relativistic one (from three channels on the upper and the lower triangle of K are listed in different orders)
+                ojobs.append(("RelK", 3, 2, 1, 2, "PhaseSpaceFactor", chk.seed * 7919 + 998))
+                cjobs.append(("RelK", 3, 1, False, 0, 1, "none", chk.seed))
         if replay and replay.get("case", {}).get("kind") in ("param", "compose", "obs", "obsb"):
             c = replay["case"]
             pjobs = [tuple(c["job"])] if c["kind"] == "param" else []
